@@ -38,7 +38,7 @@ var (
 	isAppArmorLogTemplate = regexp.MustCompile(`apparmor=("DENIED"|"ALLOWED"|"AUDIT")`)
 	regCleanLogs          = util.ToRegexRepl([]string{
 		// Clean apparmor log file
-		`.*apparmor="`, `apparmor="`,
+		`^.*?apparmor="`, `apparmor="`, // The record header only: a value may end in apparmor= too
 		`(peer_|)pid=[0-9]*\s`, " ",
 		`\x1d`, " ",
 
